@@ -14,13 +14,13 @@ func init() {
 
 // C06: Wait and Shutdown return only after all asynchronous work has finished.
 func c06(r *core.Run) {
-	r.Rule = "exhaustive TLC run of MCBus_c06 (one driver subscribing/publishing/waiting, one calling Shutdown/cancel; async handlers that publish further async work; store with Close) with WaitCovers / CloseOnlyWhenDrained, design mutant addinside (wg.Add inside the goroutine); free-running executions of the real bus (GOMAXPROCS 1/2/4/16) with Wait, Shutdown and cancel at arbitrary points validated against BusTrace.tla (a Wait/Shutdown return or a Close that precedes the end of an outstanding async invocation cannot be explained); a case is distinct by its script"
+	r.Rule = "exhaustive TLC run of MCBus_c06 (one driver subscribing/publishing/waiting, one calling Shutdown/cancel; async handlers that publish further async work; store whose Close succeeds or fails - a failing Close is what Shutdown returns -, also a recording store with a persistence timeout) with WaitCovers / CloseOnlyWhenDrained, design mutant addinside (wg.Add inside the goroutine); free-running executions of the real bus (GOMAXPROCS 1/2/4/16) with Wait, Shutdown and cancel at arbitrary points validated against BusTrace.tla (a Wait/Shutdown return or a Close that precedes the end of an outstanding async invocation cannot be explained); a case is distinct by its script"
 	r.MustHold(core.TLCOpts{Module: "MCBus_c07", Config: "MCBus_c06.cfg", Timeout: 30 * time.Minute})
 	r.MustFail(core.TLCOpts{Module: "MCBus_c07", Config: "MCBus_c06_mut_addinside.cfg"}, "WaitCovers")
 	closer := busdrv.Cfg{Closer: true}
 	g := busdrv.GenOpts{Procs: 3, OpsPerProc: [2]int{3, 8}, Types: 3, Async: 0.85, Once: 0.15, Seq: 0.2, Filt: 0.1, Body: 0.5, ChainPub: true, Yield: true, Sleep: 3000,
 		Kinds: []string{"sub", "sub", "pub", "pub", "pub", "pub", "wait", "wait", "shutdown", "cancel", "count"},
-		Ctxs:  []string{"c1", "c2"}, Cfgs: []busdrv.Cfg{closer, closer, plainCfg}}
+		Ctxs:  []string{"c1", "c2"}, Cfgs: []busdrv.Cfg{closer, closer, plainCfg, {Closer: true, CloseFails: true}, {Closer: true, Store: true, PTimeout: true}}}
 	// the plain (non-race) binary: a Wait concurrent with a first async publish is a WaitGroup misuse that the
 	// race detector reports; that is C03's subject (data races), here the subject is what Wait covers
 	stressWith(r, "c06-stress", g, r.Pick(200, 4000), []int{1, 2, 4, 16}, 606, classifyBus, "wait-returns", Self())
